@@ -127,7 +127,10 @@ func TransportPrivateData(pkt *packet.Packet) ([]byte, error) {
 	if HasSplicingPoint(pkt) {
 		offset++
 	}
-	dataLength := uint8(pkt[offset])
+	dataLength := int(pkt[offset])
 	offset++
-	return pkt[uint8(offset) : uint8(offset)+dataLength], nil
+	if offset+dataLength > packet.PacketSize {
+		return nil, gots.ErrInvalidPacketLength
+	}
+	return pkt[offset : offset+dataLength], nil
 }
